@@ -64,13 +64,21 @@ type CLine struct {
 
 // Scenario is the fixed environment of the keyper under test (constants of KeyperCrash.tla).
 type Scenario struct {
-	Cfg      Cfg `json:"cfg"`
-	Kut      int `json:"kut"`
-	AccBlock int `json:"accBlock"`
+	Cfg       Cfg    `json:"cfg"`
+	Name      string `json:"name"`
+	Kut       int    `json:"kut"`
+	DealBlock int    `json:"dealBlock"` // block in which the other keypers' commitments and evals land
+	AccBlock  int    `json:"accBlock"`
 }
 
-func defaultScenario() Scenario {
-	return Scenario{Cfg: Cfg{N: 3, T: 2, Byz: []int{3}, PhaseLen: 2}, Kut: 1, AccBlock: 3}
+// scenarios: "together": every dealer's messages land in block 1; "staggered": the messages of the
+// keyper under test land alone in block 1 (so that block's transaction touches the DKG object only
+// through the keyper's own commitment), the other dealers' in block 2, late in a longer dealing phase.
+func scenarios() []Scenario {
+	return []Scenario{
+		{Name: "together", Cfg: Cfg{N: 3, T: 2, Byz: []int{3}, PhaseLen: 2}, Kut: 1, DealBlock: 1, AccBlock: 3},
+		{Name: "staggered", Cfg: Cfg{N: 3, T: 2, Byz: []int{3}, PhaseLen: 3}, Kut: 1, DealBlock: 2, AccBlock: 4},
+	}
 }
 
 type crashRun struct {
@@ -518,7 +526,7 @@ func executeCrash(sc Scenario, seed int64, run int, faults []Fault, twin []J, re
 	last := sc.Cfg.LastBlock()
 	for b := 1; b <= last; b++ {
 		// Byzantine keyper: deals correctly in block 1, accuses the keyper under test in AccBlock
-		if byz > 0 && b == 1 {
+		if byz > 0 && b == sc.DealBlock {
 			vals := blankVals(N)
 			vals[byz-1] = "good"
 			w.Chain.Submit(w.byzTx(Op{Op: "bcommit", S: byz, Vals: vals}))
@@ -536,7 +544,7 @@ func executeCrash(sc Scenario, seed int64, run int, faults []Fault, twin []J, re
 			w.Chain.Submit(w.byzTx(Op{Op: "bacc", S: byz, Vals: vals}))
 		}
 		for i := 1; i <= N; i++ {
-			if n := w.Nodes[i]; n != nil && i != sc.Kut {
+			if n := w.Nodes[i]; n != nil && i != sc.Kut && b >= sc.DealBlock {
 				w.flush(n, 10)
 			}
 		}
